@@ -15,13 +15,13 @@ def main():
     dict_nn = [{"kind": "non_negative", "form": "dict", "falsy": "None", "modes": [0, 2], "pars": [1, 1]}]
     two = [{"kind": "non_negative", "form": "dict", "falsy": "None", "modes": [0], "pars": [1]},
            {"kind": "simplex", "form": "dict", "falsy": "None", "modes": [0, 1], "pars": [1, 2]}]
-    m_ok = c11.exec_map({"id": "map-ok", "op": "map", "n": 3, "items": dict_nn, "seed": 0})
+    m_ok = c11.exec_map({"id": "map-ok", "op": "map", "n": 3, "items": dict_nn, "seed": 0, "form": "positional"})
     m_rej = c11.exec_map({"id": "map-reject-ok", "op": "map", "n": 3, "items": two, "seed": 0})
     r_ok = c11.exec_run({"id": "run-ok", "op": "run", "n": 3, "items": dict_nn, "seed": 5,
                          "run": {"shape": [3, 4, 2], "rank": 2, "init": "random", "outer": 2, "inner": 10, "data": "signed",
-                                 "fixed": [0], "via": "class", "scale": 0, "dtype": "float32", "tol": "default", "built": "at_call"}})
+                                 "fixed": [0], "via": "class", "scale": 0, "dtype": "float32", "tol": "default", "built": "at_call", "form": "positional", "cvg": "rec_error", "errors": True, "alias": False}})
     p_ok = c11.exec_prox({"id": "prox-ok", "op": "prox", "n": 3, "items": dict_nn, "seed": 7,
-                          "run": {"rows": 3, "cols": 2, "mode": 2, "data": "signed", "scale": -70, "dtype": "float64"}})
+                          "run": {"rows": 3, "cols": 2, "mode": 2, "data": "signed", "scale": -70, "dtype": "float64", "form": "positional"}})
     evs = [m_ok, m_rej, r_ok, p_ok]
 
     def mutate(ev, name, fn):
@@ -39,7 +39,7 @@ def main():
     mutate(r_ok, "run-fixed-mode-of-builtin-start-negative", lambda e: e["factors"][0]["cols"][0].update(minsign=-1))
     u_ok = c11.exec_run({"id": "run-user-ok", "op": "run", "n": 3, "items": dict_nn, "seed": 5,
                          "run": {"shape": [3, 4, 2], "rank": 2, "init": "feasible", "outer": 2, "inner": 10, "data": "signed",
-                                 "fixed": [0], "via": "function", "scale": 0, "dtype": "float64", "tol": "default", "built": "at_call"}})
+                                 "fixed": [0], "via": "function", "scale": 0, "dtype": "float64", "tol": "default", "built": "at_call", "form": "positional", "cvg": "rec_error", "errors": True, "alias": False}})
     evs.append(u_ok)
     mutate(u_ok, "run-fixed-mode-supplied-feasible-returned-negative", lambda e: e["factors"][0]["cols"][0].update(minsign=-1))
     mutate(u_ok, "run-fixed-mode-supplied-infeasible-is-fine",
